@@ -1,17 +1,19 @@
 """Translator (Python AST -> Lean 4 `IterShape`) for the lazily cached domain of C03:
 
-  HashedIterable.__iter__ / __bool__ (+ the helpers they rely on: add, set_iterable, __post_init__)   (hashed_data.py)
+  HashedIterable.__iter__ / __bool__ (+ the helpers they rely on: add, set_iterable, __post_init__; + __getitem__, the
+  only other reader of the shared source; no other method may use self.iterable)                       (hashed_data.py)
 
 Output: a Lean file defining `Translated.shape : IterShape` (Model/DomShape.lean) and the per-run proof obligations, all
 by `decide`:
 
-  C03_iter_shape_eq_model : Translated.shape = Dom.shape ∨ Translated.shape = Dom.shapeIdx
+  C03_iter_shape_eq_model : Translated.shape = Dom.shape ∨ Translated.shape = Dom.shapeIdx ∨ Translated.shape = Dom.shapeSnap
   C03_iter_shape_ok       : IterOk Translated.shape
   C03_iter_shape_full_ok  : IterFullOk Translated.shape          (only when F-C03-1 is not an open finding any more)
 
-With `Props/C03Shape.lean` (proved once, unbounded) the first says that the machine interpreted from the code IS one
-of the two hand-written machines of Model/Dom.lean / DomIdx.lean on every schedule, the second gives the property on
-every non-overlapping schedule, the third on EVERY schedule, for all domains and query families.
+With `Props/C03Shape.lean` (proved once, unbounded) the first says which machine the code is — one of the two hand-written
+machines of Model/Dom.lean / DomIdx.lean (then `run` / `runIdx` and every theorem about them speak about this code, on every
+schedule), or their snapshot variant (equal to today's machine wherever that does not raise RuntimeError) —, the second gives
+the property on every non-overlapping schedule, the third on EVERY schedule, for all domains and query families.
 
 STRICT: every statement of the translated methods must be one of the recognised shapes below; anything else raises
 TranslationError (the check then searches for a concrete failing input through the correspondence).
@@ -159,6 +161,20 @@ if iterable and not isinstance(iterable, HashedIterable):
 WRAP_SELF = '''
 if self.iterable and not isinstance(self.iterable, HashedIterable):
     self.iterable = (HashedValue(v) if not isinstance(v, HashedValue) else v for v in self.iterable)
+'''
+GETITEM = '''
+if isinstance(id_, HashedValue):
+    id_ = id_.id_
+elif not isinstance(id_, int):
+    id_ = HashedValue(id_).id_
+try:
+    return self.values[id_]
+except KeyError:
+    for v in self.iterable:
+        self.values[v.id_] = v
+        if v.id_ == id_:
+            return v
+    raise KeyError(id_)
 '''
 ADD = '''
 if not isinstance(value, HashedValue):
@@ -383,15 +399,21 @@ def describe(source: str) -> dict:
         _plain(fn, params)
         if not _same(fn.body, template, GLOBALS | set(params)):
             raise TranslationError(f"HashedIterable.{name}: the source is no longer wrapped in a generator expression")
-    # nothing else may be a generator over / rebind the source
+    # the only other reader of the source: `__getitem__` pulls until it finds an id that is not cached, caching what it
+    # pulls BEFORE it looks at it (like a beforeYield iterator that is never suspended); on an id that an `IterOk`
+    # iterator has handed out it does not pull at all
+    fn = methods.get("__getitem__")
+    if fn is not None:
+        _plain(fn, ["self", "id_"])
+        if not _same(fn.body, GETITEM, GLOBALS | {"id_", "int", "KeyError"}):
+            raise TranslationError("HashedIterable.__getitem__: body changed (it reads the shared source)")
+    # nothing else may read or rebind the source
     for name, fn in methods.items():
-        if name in ("__iter__", "__post_init__", "set_iterable"):
+        if name in ("__iter__", "__post_init__", "set_iterable", "__getitem__", "__bool__"):
             continue
         for n in ast.walk(fn):
-            if isinstance(n, (ast.Assign, ast.AugAssign, ast.AnnAssign)):
-                tg = n.targets if isinstance(n, ast.Assign) else [n.target]
-                if any(_u(t) == "self.iterable" for t in tg):
-                    raise TranslationError(f"HashedIterable.{name} rebinds self.iterable")
+            if isinstance(n, ast.Attribute) and _u(n) == "self.iterable":
+                raise TranslationError(f"HashedIterable.{name} uses self.iterable")
     return shape
 
 
@@ -413,8 +435,9 @@ open KrroodVerif.Dom
 
 def shape : IterShape := {{ {fields} }}
 
-/-- the code is one of the two hand-written machines (`Dom.step` of Model/Dom.lean / `Dom.stepIdx` of DomIdx.lean) -/
-theorem C03_iter_shape_eq_model : shape = Dom.shape ∨ shape = Dom.shapeIdx := by decide
+/-- the code is one of the two hand-written machines (`Dom.step` of Model/Dom.lean / `Dom.stepIdx` of DomIdx.lean:
+`C03_shape_is_model`, `C03_shape_is_model_idx`) or the snapshot variant of the first (`runS_snap`) -/
+theorem C03_iter_shape_eq_model : shape = Dom.shape ∨ shape = Dom.shapeIdx ∨ shape = Dom.shapeSnap := by decide
 
 theorem C03_iter_shape_ok : IterOk shape := by decide
 
